@@ -3,6 +3,8 @@ CONSTANTS CatchNotifications = FALSE
           LogSafe = TRUE
           Script <- MCScript
           Flavours <- MCFlavours
+          Handlers = 2
+          Continue = "skip"
 INVARIANT C26_SameExchange
 INVARIANT C26_Contained
 INVARIANT C26_Completes
